@@ -788,6 +788,79 @@ Definition embed_ltb (a b : entry) : bool :=
 Definition fs_entries (files : list (str * str)) : list entry :=
   sort_by embed_ltb (fold_left add_entries files []).
 
+(* ---------- LoadDirectives over the files of a package ---------- *)
+(* what LoadDirectives looks at: per file whether it imports embed
+   (FileImportsEmbed) and its var declarations with their doc comments *)
+Record vspec := { vs_names : list str; vs_doc : list str }.          (* ValueSpec: names, Doc comment texts *)
+Record vdecl := { vd_doc : list str; vd_specs : list vspec }.        (* GenDecl (var): Doc, Specs *)
+Record gofile := { gf_embed : bool; gf_decls : list vdecl }.
+
+Definition E_MISPLACED := 20. Definition E_PARSE := 21. Definition E_MULTI := 22. Definition E_NOIMPORT := 23.
+
+(* ParsePatterns(docs...): all comments of the groups in order; an error still reports hasDirective *)
+Inductive pdres := PD (ps : list str) (has : bool) | PDErr.
+Fixpoint parse_docs (cs : list str) (acc : list str) (has : bool) : pdres :=
+  match cs with
+  | [] => PD acc has
+  | c :: cs' =>
+    match parse_comment c with
+    | DNone => parse_docs cs' acc has
+    | DErr => PDErr
+    | DPats ps => parse_docs cs' (acc ++ ps) true
+    end
+  end.
+Definition has_directive (cs : list str) : bool :=
+  match parse_docs cs [] false with PD _ h => h | PDErr => true end.
+
+Section FoldRes.
+  Context {X M : Type} (step : X -> M -> res M).
+  Fixpoint fold_res (xs : list X) (m : M) : res M :=
+    match xs with
+    | [] => Ok m
+    | x :: xs' => match step x m with Err e => Err e | Ok m' => fold_res xs' m' end
+    end.
+End FoldRes.
+
+Definition varmap := list (str * list (str * str)).
+Fixpoint putv (m : varmap) (k : str) (v : list (str * str)) : varmap :=
+  match m with
+  | [] => [(k, v)]
+  | (k', v') :: m' => if str_eqb k k' then (k, v) :: m' else (k', v') :: putv m' k v
+  end.
+
+Definition spec_docs (single : bool) (gdoc : list str) (s : vspec) : list str :=
+  if single then gdoc ++ vs_doc s else vs_doc s.
+
+(* the body of the loop over gen.Specs; [imp] = FileImportsEmbed of the file the spec is in *)
+Definition load_spec (root : node) (imp single : bool) (gdoc : list str) (s : vspec) (m : varmap) : res varmap :=
+  match parse_docs (spec_docs single gdoc s) [] false with
+  | PDErr => Err E_PARSE
+  | PD _ false => Ok m
+  | PD ps true =>
+    match vs_names s with
+    | [name] =>
+      if negb imp then Err E_NOIMPORT
+      else match resolve root ps with
+           | Err e => Err e
+           | Ok fs => Ok (putv m name fs)
+           end
+    | _ => Err E_MULTI
+    end
+  end.
+
+Definition is_single {A} (l : list A) : bool := match l with [_] => true | _ => false end.
+Definition is_multi {A} (l : list A) : bool := match l with _ :: _ :: _ => true | _ => false end.
+
+Definition load_decl (root : node) (imp : bool) (d : vdecl) (m : varmap) : res varmap :=
+  if is_multi (vd_specs d) && has_directive (vd_doc d) then Err E_MISPLACED
+  else fold_res (load_spec root imp (is_single (vd_specs d)) (vd_doc d)) (vd_specs d) m.
+
+Definition load_file (root : node) (f : gofile) (m : varmap) : res varmap :=
+  fold_res (load_decl root (gf_embed f)) (gf_decls f) m.
+
+Definition load_directives (root : node) (files : list gofile) : res varmap :=
+  fold_res (load_file root) files [].
+
 (* ---------- equality tests used by the correspondence ---------- *)
 Definition files_eqb : list (str * str) -> list (str * str) -> bool := list_eqb (prod_eqb str_eqb str_eqb).
 Definition res_eqb (a b : res (list (str * str))) : bool :=
@@ -805,3 +878,32 @@ Definition dres_eqb (a b : dres) : bool :=
   end.
 Definition entries_eqb : list entry -> list entry -> bool :=
   list_eqb (prod_eqb str_eqb (option_eqb str_eqb)).
+
+Definition varmap_eqb : varmap -> varmap -> bool := list_eqb (prod_eqb str_eqb files_eqb).
+Definition vres_eqb (a b : res varmap) : bool :=
+  match a, b with
+  | Ok x, Ok y => varmap_eqb x y
+  | Err e, Err f => e =? f
+  | _, _ => false
+  end.
+
+(* ---------- cl/embed.go tryEmbedGlobalInit: the stores of []byte variables ---------- *)
+(* every []byte variable is initialised by its own pkg.ConstBytes call, i.e. gets
+   a writable store of its own (stores are numbered in creation order), however
+   many variables embed the same file *)
+Fixpoint bytes_stores (vars : list (str * str)) (next : N) : list (str * N) * list str :=
+  match vars with
+  | [] => ([], [])
+  | (name, data) :: vs =>
+    let r := bytes_stores vs (N.succ next) in
+    ((name, next) :: fst r, data :: snd r)
+  end.
+(* a write of byte v at position k through store i *)
+Fixpoint set_nth {A} (n : nat) (x : A) (l : list A) : list A :=
+  match l, n with
+  | [], _ => []
+  | _ :: l', O => x :: l'
+  | y :: l', S n' => y :: set_nth n' x l'
+  end.
+Definition write_store (heap : list str) (i k : nat) (v : N) : list str :=
+  set_nth i (set_nth k v (nth i heap [])) heap.
